@@ -1,5 +1,6 @@
 import DSV.Props.C03
 import DSV.Props.C05
+import DSV.Props.C14Observe
 /-!
 # C04 — predecessor-to-successor handover is gapless and overlap-free
 
@@ -116,5 +117,13 @@ theorem undefined_channel_unreportable (cfg : Cfg) (c : Nat) (s : Outcome) (h : 
   split
   · simp
   · rw [h]; simp
+
+/-- **the attestation travels only while staging**: a correct node attaches the predecessor's
+    attested retirement report to its observation only if it has a configured predecessor and its
+    previous outcome is still staging (whole `observation()` model, `DSV/LLO/Observe.lean`) -/
+theorem attests_only_while_staging (env : Env) (cfg : Cfg) (seqNr : Nat) (prev : Outcome) (nd : Node) (o : Obs)
+    (h : observation env cfg seqNr prev nd = .ok (some o)) (ha : o.attested ≠ []) :
+    cfg.hasPred = true ∧ prev.stage = stageStaging :=
+  (C14.honest_observation_shape env cfg seqNr prev nd o h).2.1 ha
 
 end DSV.Props.C04
